@@ -254,11 +254,15 @@ def main():
     for cif2 in (True, False):
         T = tokens(cif2, tier)
         structs = STRUCTS2 if cif2 else STRUCTS1
+        if os.environ.get('C01_LIGHT'):
+            structs = ['item2', 'table'] if cif2 else ['loop2x1']
         jobs = []
         for si, struct in enumerate(structs):
             for i in range(len(T)):
                 # full separator cross product for the plain item/loop structures, one blank / one newline elsewhere
                 seps = SEPS if struct in ('item2', 'loop1x2') else ([' ', '\n'] if tier == 'quick' else SEPS[:4])
+                if os.environ.get('C01_LIGHT'):
+                    seps = ['\n']
                 jobs.append((struct, i, seps, True))
             # documents without the version comment (CIF 1.1 by default; CIF 2.0 when preferred) for one structure
         jobs += [('item2', i, [' '], False) for i in range(len(T))]
